@@ -390,6 +390,202 @@ def noreplay_pause_probe():
     return bad
 
 
+# ----------------------------------------------------------------------------- C13: responses under the relative / reset wrappers
+def wrapper_response_probe():
+    """the value a plan receives for `set` is the status the device returned -- also for the FIRST set on a device under
+    relative_set_wrapper / reset_positions_wrapper (where the wrappers insert a read / locate in front of it) and for mvr"""
+    import bluesky.plan_stubs as bps
+    from bluesky.preprocessors import relative_set_wrapper, reset_positions_wrapper
+    from bluesky.utils import Msg
+
+    class Pos:
+        parent = None
+
+        def __init__(self, name, kind):
+            self.name, self.kind, self.handed_out = name, kind, []
+            self._p = 2.0
+            if kind == "position":
+                self.position = 2.0
+
+        def set(self, v):
+            self._p = v
+            st = _Status()
+            st.finish(True)
+            self.handed_out.append(st)
+            return st
+
+        def read(self):
+            return {self.name: {"value": self._p, "timestamp": 0.0}}
+
+        def describe(self):
+            return {self.name: {"source": "sim", "dtype": "number", "shape": []}}
+
+        def read_configuration(self):
+            return {}
+
+        def describe_configuration(self):
+            return {}
+
+    class LocPos(Pos):
+        async def locate(self):
+            return {"setpoint": self._p, "readback": self._p}
+
+    bad = []
+    for kind in ("position", "read-only", "locatable"):
+        for wrapper in ("relative_set_wrapper", "reset_positions_wrapper", "mvr"):
+            dev = (LocPos if kind == "locatable" else Pos)("dev", kind)
+            got = []
+
+            def inner(dev=dev, got=got):
+                got.append((yield Msg("set", dev, 1.0, group="g")))
+                yield Msg("wait", None, group="g")
+                got.append((yield Msg("set", dev, 2.0, group="g")))
+                yield Msg("wait", None, group="g")
+
+            RE, docs = _engine()
+            if wrapper == "mvr":
+                box = {}
+
+                def outer(dev=dev, box=box):
+                    box["ret"] = yield from bps.mvr(dev, 1.0)
+
+                out = _run(RE, outer())
+                ok = out[0] == "return" and isinstance(box.get("ret"), tuple) and len(box["ret"]) == 1 and box["ret"][0] is dev.handed_out[0]
+                what = f"mvr returned {box.get('ret')!r}"
+            else:
+                w = relative_set_wrapper if wrapper == "relative_set_wrapper" else reset_positions_wrapper
+                out = _run(RE, w(inner(), [dev]))
+                ok = out[0] == "return" and len(got) == 2 and got[0] is dev.handed_out[0] and got[1] is dev.handed_out[1]
+                what = f"the two set yields received {[type(x).__name__ if not isinstance(x, dict) else 'reading-dict' for x in got]}"
+            if not ok:
+                bad.append((f"set-under-{wrapper}-did-not-receive-its-status:{kind}-device", f"{wrapper} over a {kind} device: {what} ({out[0]} {out[1]!r}); expected the status objects handed out by device.set", {"probe": "wrapper-response", "wrapper": wrapper, "device": kind}))
+    return bad
+
+
+# ----------------------------------------------------------------------------- C18: in-plan subscriptions are not replayed
+def inplan_subscription_probe():
+    """an in-plan subscribe, a pause and resume before the next checkpoint (the subscribe is NOT replayed), then the plan's
+    unsubscribe of its own token: the callback stops receiving; an in-plan subscription never outlives its call either"""
+    from bluesky.utils import Msg
+
+    bad = []
+    for unsub in (True, False):
+        RE, docs = _engine()
+        got = []
+
+        def cb(name, doc):
+            got.append(name)
+
+        def plan(unsub=unsub):
+            yield Msg("open_run")
+            yield Msg("checkpoint")
+            tok = yield Msg("subscribe", None, cb, "all")
+            yield Msg("null")
+            yield Msg("pause")
+            yield Msg("null")
+            yield Msg("close_run")
+            if unsub:
+                yield Msg("unsubscribe", None, tok)
+            yield Msg("open_run")
+            yield Msg("close_run")
+
+        out = _run(RE, plan())
+        rounds = 0
+        while str(RE.state) == "paused" and rounds < 4:
+            rounds += 1
+            out = _run_call_catch(RE.resume)
+        first_call = list(got)
+        _run(RE, _listplan(Msg("open_run"), Msg("close_run")))
+        later = got[len(first_call):]
+        case = {"probe": "inplan-subscription", "plan_unsubscribes": unsub}
+        if str(RE.state) != "idle" or out[0] != "return":
+            bad.append(("inplan-subscription:call-did-not-finish", f"{case}: {out[0]} {out[1]!r} state {RE.state!s}", case))
+            continue
+        want = ["stop"] if unsub else ["stop", "start", "stop"]
+        if first_call != want:
+            bad.append(("inplan-subscription:wrong-documents-in-its-call", f"subscribe in plan, pause + resume, close_run{', unsubscribe(token)' if unsub else ''}, a second run: the callback received {first_call}, expected {want}", case))
+        if later:
+            bad.append(("leaked:in-plan-subscription-outlives-its-call", f"the callback subscribed by an in-plan message received {later} in the NEXT call", case))
+    return bad
+
+
+def equal_instances_probe():
+    """two DISTINCT instances that compare equal (e.g. empty dict-derived collectors) subscribe the same method: they are two
+    callables -- both receive every document, and unsubscribing one token leaves the other one connected"""
+    from bluesky.utils import Msg
+
+    class Holder(dict):
+        def __init__(self):
+            super().__init__()
+            self.seen = []
+
+        def cb(self, name, doc):
+            self.seen.append(name)
+
+    bad = []
+    RE, docs = _engine()
+    a, b = Holder(), Holder()
+    assert a == b and a is not b
+    ta = RE.subscribe(a.cb)
+    tb = RE.subscribe(b.cb)
+    _run(RE, _listplan(Msg("open_run"), Msg("close_run")))
+    case = {"probe": "equal-instances"}
+    if a.seen != ["start", "stop"] or b.seen != ["start", "stop"]:
+        bad.append(("silenced:equal-but-distinct-instances-deduplicated", f"two equal-but-distinct collectors subscribed their bound method: first saw {a.seen}, second saw {b.seen}", case))
+    RE.unsubscribe(ta)
+    a.seen.clear()
+    b.seen.clear()
+    _run(RE, _listplan(Msg("open_run"), Msg("close_run")))
+    if a.seen != [] or b.seen != ["start", "stop"]:
+        bad.append(("removal-not-local:equal-but-distinct-instances", f"after unsubscribing the first collector's token: first saw {a.seen}, second saw {b.seen}", case))
+    return bad
+
+
+# ----------------------------------------------------------------------------- C07: a fault right after the state assignment of a request
+def raising_state_hook_probe():
+    """RE.state_hook is user code; if it raises when abort / stop / halt assign their state from 'paused', the request's
+    blocking call reports that error -- but the parked plan is still woken, torn down and the engine ends idle, usable for
+    the next call (never wedged in 'stopping' / 'aborting' / 'halting')"""
+    from bluesky.utils import Msg
+
+    bad = []
+    for req, st_name in (("stop", "stopping"), ("abort", "aborting"), ("halt", "halting")):
+        RE, docs = _engine()
+
+        def plan():
+            yield Msg("open_run")
+            yield Msg("checkpoint")
+            yield Msg("pause")
+            yield Msg("null")
+            yield Msg("close_run")
+
+        _run(RE, plan())
+        if str(RE.state) != "paused":
+            bad.append(("raising-state-hook:did-not-pause", f"state {RE.state!s}", {"probe": "raising-state-hook", "request": req}))
+            continue
+
+        def hook(new, old, st_name=st_name):
+            if str(new) == st_name:
+                raise KeyError(f"state hook failed on {new}")
+
+        RE.state_hook = hook
+        r = _run_call_catch(getattr(RE, req))
+        RE.state_hook = None
+        import time
+
+        t0 = time.time()
+        while str(RE.state) != "idle" and time.time() - t0 < 2.0:
+            time.sleep(0.01)
+        case = {"probe": "raising-state-hook", "request": req}
+        if str(RE.state) != "idle":
+            bad.append((f"engine-wedged-in-{RE.state!s}:state-hook-raised", f"RE.{req}() from paused with a state_hook raising on {st_name!r} ended {r[0]} {type(r[1]).__name__ if r[1] else ''}; the engine stays in {RE.state!s}", case))
+            continue
+        r2 = _run(RE, _listplan(Msg("open_run"), Msg("close_run")))
+        if r2[0] != "return":
+            bad.append(("engine-unusable-after-state-hook-error", f"after RE.{req}() with a raising state_hook the next call ended {r2[0]} {r2[1]!r}", case))
+    return bad
+
+
 # ----------------------------------------------------------------------------- C08 / C10: what one call leaves behind for the next
 def second_call_probe():
     """a call whose plan used clear_checkpoint (non-resumable from there on) ends; the NEXT call starts resumable again: a
@@ -936,6 +1132,50 @@ def relative_moves_probe():
         def describe_configuration(self):
             return {}
 
+    # (c) neither Locatable nor .position: the initial position is the HINTED field of read(), wherever it stands in the reading
+    class Hinted:
+        parent = None
+
+        def __init__(self, name, pos, hinted_first):
+            self.name, self.pos, self.first = name, pos, hinted_first
+            self.hints = {"fields": [f"{name}_readback"]}
+
+        def set(self, value):
+            self.pos = value
+            st = _Status()
+            st.finish(True)
+            return st
+
+        def read(self):
+            rb = (f"{self.name}_readback", {"value": self.pos, "timestamp": 0.0})
+            dm = (f"{self.name}_demand", {"value": 0.0, "timestamp": 0.0})
+            return dict([rb, dm] if self.first else [dm, rb])
+
+        def describe(self):
+            return {k: {"source": "sim", "dtype": "number", "shape": []} for k in self.read()}
+
+        def read_configuration(self):
+            return {}
+
+        def describe_configuration(self):
+            return {}
+
+    for first in (True, False):
+        for variant in ("mvr", "rel_scan"):
+            m = Hinted("slide", 3.25, first)
+            RE, docs = _engine()
+            msgs = []
+            RE.msg_hook = msgs.append
+            if variant == "mvr":
+                _run(RE, bps.mvr(m, 1.5))
+                want = [3.25 + 1.5]
+            else:
+                _run(RE, bp.rel_scan([], m, -1, 1, 3))
+                want = [2.25, 3.25, 4.25, 3.25]
+            got = sets_on(msgs, m)
+            if got != want:
+                bad.append((f"relative-move-of-hinted-device:readback-{'first' if first else 'not-first'}-in-reading:{variant}", f"{variant} on a device without .position whose hinted readback (3.25) is {'the first' if first else 'NOT the first'} key of read() (a stale demand signal 0.0 is the other): set values {got}, expected {want}", {"probe": "relative-moves", "device": "hinted", "hinted_first": first, "variant": variant}))
+
     for sp0 in (0, 0.0, 5.0, -2.0):
         for variant in ("mvr", "rel_scan"):
             m = Loc("loc", sp0, sp0 + 0.25)
@@ -1007,7 +1247,7 @@ def _run_call(f):
         return f()
 
 
-PROBES = {"replayed-group": replayed_group_probe, "noreplay-pause": noreplay_pause_probe, "second-call": second_call_probe, "nonresumable-wrapper": nonresumable_wrapper_probe, "external-assets": external_assets_probe, "metadata-store": metadata_store_probe, "dying-subscriber": dying_subscriber_probe, "classic-flyer": classic_flyer_probe, "nonrewindable-region": nonrewindable_region_probe, "relative-moves": relative_moves_probe, "stale-deferred-pause": stale_deferred_pause_probe, "reused-message": reused_message_probe, "locate": locate_probe, "run-wrapper-exception": run_wrapper_exception_probe}
+PROBES = {"wrapper-response": wrapper_response_probe, "inplan-subscription": inplan_subscription_probe, "equal-instances": equal_instances_probe, "raising-state-hook": raising_state_hook_probe, "replayed-group": replayed_group_probe, "noreplay-pause": noreplay_pause_probe, "second-call": second_call_probe, "nonresumable-wrapper": nonresumable_wrapper_probe, "external-assets": external_assets_probe, "metadata-store": metadata_store_probe, "dying-subscriber": dying_subscriber_probe, "classic-flyer": classic_flyer_probe, "nonrewindable-region": nonrewindable_region_probe, "relative-moves": relative_moves_probe, "stale-deferred-pause": stale_deferred_pause_probe, "reused-message": reused_message_probe, "locate": locate_probe, "run-wrapper-exception": run_wrapper_exception_probe}
 
 
 def add_to(res, names):
